@@ -38,7 +38,7 @@ def optInt? (t : String) : Option (Option Int) := if t = "~" then some none else
 
 def obsShow : OutObs → String
   | .ret items => "ret{" ++ ", ".intercalate (items.map fun p => shw p.1 ++ "=" ++ valTok p.2) ++ "}"
-  | .exc e => s!"exc {excShow (some e.info)} code={repr e.code} desc={e.desc.map shw} status={repr e.status}"
+  | .exc e => s!"exc {excShow (some e.info)} code={repr e.code} desc={e.desc.map shw} status={repr e.status} typed={e.typed}"
 
 def obsEq : OutObs → OutObs → Bool
   | .ret a, .ret b => a == b
@@ -116,11 +116,23 @@ def step (a : Acc) (toks : List String) : Acc :=
       | some n, some v' => updCur a fun c => { c with items := c.items ++ [(n, v')], otab := c.otab.addRepr v }
       | _, _ => a.fail "bad item"
   | ["exc", cls, mro, code, desc, status] =>
-      match optInt? code, optStr? desc, optInt? status with
-      | some c', some d, some s =>
-          updCur a fun c => { c with obs := some (.exc { info := { cls := cls, mro := if mro = "~" then [] else mro.splitOn "," },
-                                                          code := c', desc := d, status := s }) }
-      | _, _, _ => a.fail "bad exc"
+      -- attributes travel type-tagged (value tokens); anything but None / int (code, status) or
+      -- None / str (description) clears `typed`
+      let intAttr (t : String) : Option Int × Bool :=
+        match val? t with
+        | some (.int i) => (some i, true)
+        | some .none => (none, true)
+        | _ => (none, false)
+      let strAttr (t : String) : Option Str × Bool :=
+        match val? t with
+        | some (.str x) => (some x, true)
+        | some .none => (none, true)
+        | _ => (none, false)
+      let (c', t1) := intAttr code
+      let (d, t2) := strAttr desc
+      let (st, t3) := intAttr status
+      updCur a fun c => { c with obs := some (.exc { info := { cls := cls, mro := if mro = "~" then [] else mro.splitOn "," },
+                                                      code := c', desc := d, status := st, typed := t1 && t2 && t3 }) }
   | _ => a.fail ("bad line " ++ " ".intercalate toks)
 
 def finish (a0 : Acc) : Bool × Bool × List String :=
